@@ -210,7 +210,8 @@ class TopoModel(Model):
         return Raw(self.t.graph_model.graph_id)
 
     def canon(self):
-        return self.raw().canon()
+        st = world.shared_store()
+        return (self.raw().canon(), st.start_id > max(st.graphs.nodes, default=0))
 
     def observe(self):
         return self.raw()
